@@ -1317,6 +1317,106 @@ def callshape_program(rng):
     return {"globals": globals_, "procs": procs}, feats
 
 
+def logic_program(rng):
+    """Boundary stream for the logical operators with one compile-time-constant operand: `C op E` and
+    `E op C` for op in {and, or}, C a constant-zero / constant-one form (0, 1, false, true, a val equal
+    to 0/1, a folded sub-expression) and E an expression containing a call of an impure function that
+    returns 0 or 1 (prints a marker, reads input, or assigns a global) - as condition of if / while, as
+    assigned value, as actual, under `~`, and nested `(E op C) op2 E2`.  `and`/`or` have a defined
+    left-to-right short-circuit order, so which operands are evaluated is observable from the output,
+    the input consumed and the global counter that the program prints at the end."""
+    r = rng
+    globals_ = [["val", "z", num(0)], ["val", "o", num(1)], ["var", "g"], ["var", "x"]]
+    procs = [
+        {"kind": "func", "name": "t1", "formals": [], "locals": [], "body": ["seq", [["syscall", 1, [num(ord("a"), "chr"), num(0)]], ["ret", num(1)]]]},
+        {"kind": "func", "name": "t0", "formals": [], "locals": [], "body": ["seq", [["syscall", 1, [num(ord("b"), "chr"), num(0)]], ["ret", num(0)]]]},
+        {"kind": "func", "name": "rd", "formals": [], "locals": [], "body": ["ret", ["bin", "ls", ["syscall", 2, [num(0)]], num(128), False]]},
+        {"kind": "func", "name": "g1", "formals": [], "locals": [], "body": ["seq", [["assign", "g", ["bin", "plus", ["name", "g"], num(1), False]], ["ret", num(1)]]]},
+        {"kind": "func", "name": "g0", "formals": [], "locals": [], "body": ["seq", [["assign", "g", ["bin", "plus", ["name", "g"], num(2), False]], ["ret", num(0)]]]},
+        {"kind": "func", "name": "idb", "formals": [["val", "v"]], "locals": [], "body": ["seq", [["syscall", 1, [["bin", "plus", ["name", "v"], num(48), False], num(0)]], ["ret", ["name", "v"]]]]},
+        {"kind": "proc", "name": "show", "formals": [["val", "v"]], "locals": [], "body": ["syscall", 1, [["bin", "plus", ["name", "v"], num(ord("A")), False], num(0)]]},
+    ]
+
+    def const(v):
+        if v == 0:
+            return r.choice([num(0), ["bool", 0], ["name", "z"], ["bin", "minus", num(3), num(3), False],
+                             ["bin", "ls", num(4), num(2), False], ["bin", "eq", num(1), num(2), False],
+                             ["un", "not", ["bool", 1]], ["bin", "and", ["bool", 1], num(0), False]])
+        return r.choice([num(1), ["bool", 1], ["name", "o"], ["bin", "minus", num(2), num(1), False],
+                         ["bin", "ls", num(2), num(4), False], ["bin", "eq", ["name", "o"], num(1), False],
+                         ["un", "not", num(0)], ["bin", "or", num(0), ["bool", 1], False]])
+
+    def impure():
+        """(expression, value or None when it depends on the input)"""
+        k = r.below(8)
+        if k == 0:
+            return ["call", "t1", []], 1
+        if k == 1:
+            return ["call", "t0", []], 0
+        if k == 2:
+            return ["call", "rd", []], None
+        if k == 3:
+            return ["call", "g1", []], 1
+        if k == 4:
+            return ["call", "g0", []], 0
+        if k == 5:
+            e, v = impure()
+            return ["call", "idb", [e]], v
+        if k == 6:
+            e, v = impure()
+            return ["un", "not", e], (None if v is None else 1 - v)
+        return ["bin", "eq", ["call", "t1", []], num(r.below(2)), False], None
+
+    def core(depth):
+        op = r.choice(["and", "or"])
+        cv = r.below(2)
+        c = const(cv)
+        e, ev = impure() if depth == 0 or r.chance(2, 3) else core(depth - 1)
+        if r.chance(1, 2):
+            l, lv, rr, rv = c, cv, e, ev
+        else:
+            l, lv, rr, rv = e, ev, c, cv
+        if op == "and":
+            val = 0 if lv == 0 else (rv if lv == 1 else (0 if rv == 0 else None))
+        else:
+            val = 1 if lv == 1 else (rv if lv == 0 else (1 if rv == 1 else None))
+        return ["bin", op, l, rr, False], val
+
+    stmts = [["assign", "g", num(0)], ["assign", "x", num(0)]]
+    feats = Counter({"stream:logic": 1})
+    for _ in range(1 + r.below(3)):
+        e, v = core(r.below(2))
+        k = r.below(100)
+        if k < 15:
+            e2, v2 = impure()
+            op2 = r.choice(["and", "or"])
+            e = ["bin", op2, e, e2, False] if r.chance(1, 2) else ["bin", op2, e2, e, False]
+            v = None
+            feats["logic:nested"] += 1
+        elif k < 30:
+            e, v = ["un", "not", e], (None if v is None else 1 - v)
+            feats["logic:under-not"] += 1
+        place = r.choice(["if", "if", "assign", "actual", "put", "while", "exit" if False else "if"])
+        if place == "while" and v != 0:
+            place = "if"
+        feats["logic:" + place] += 1
+        if place == "if":
+            t = r.choice([["syscall", 1, [num(ord("T"), "chr"), num(0)]], ["skip"]])
+            f = r.choice([["syscall", 1, [num(ord("F"), "chr"), num(0)]], ["skip"]])
+            stmts.append(["if", e, t, f])
+        elif place == "while":
+            stmts.append(["while", e, ["skip"]])
+        elif place == "assign":
+            stmts += [["assign", "x", e], ["call", "show", [["name", "x"]]]]
+        elif place == "actual":
+            stmts.append(["call", "show", [e]])
+        else:
+            stmts.append(["syscall", 1, [["bin", "plus", e, num(ord("0")), False], num(0)]])
+    stmts += [["call", "show", [["name", "g"]]], ["syscall", 1, [["syscall", 2, [num(0)]], num(0)]]]
+    procs.append({"kind": "proc", "name": "main", "formals": [], "locals": [], "body": ["seq", stmts]})
+    return {"globals": globals_, "procs": procs}, feats
+
+
 def gen_input(rng):
     n = rng.choice([0, 0, 1, 2, 3, 5, 8, 13])
     data = bytes(rng.choice([rng.below(256), 32 + rng.below(95), 255, 0, 10, 254]) for _ in range(n))
